@@ -821,12 +821,12 @@ def x5_targets(ctx):
     return out
 
 
-def rule_X5(ctx):
+def rule_X5(ctx, classes=None):
     from ..cinterp import Interp, UNK
     res = RuleResult('X5', 'constructors and parameter setters reject every bad cell (NaN, +-inf, zero, negative, '
                            'out of range) of each ellipsoid / projection parameter, on every path (witness '
                            'interpretation of the validation logic, delegated constructors followed)')
-    targets = x5_targets(ctx)
+    targets = [(f, r) for f, r in x5_targets(ctx) if classes is None or f.cls in classes]
     ip = Interp(ctx.prog, follow=T.X5_FOLLOW, nofollow=set(T.NOTHROW_WHEN_INTERNAL))
     nt = 0
     import itertools
